@@ -99,7 +99,7 @@ func buildNodeImplementers(c *Check) []types.Type {
 // command function is "execute").
 type execAnchors struct {
 	Write        *ssa.Function // (*caching.TargetResultCache).Write
-	Complete     *ssa.Function // the only caller of Write (OnTargetComplete)
+	Complete     *ssa.Function // the function the executing method calls to store outputs + result (OnTargetComplete)
 	ExecMethod   *ssa.Function // caller of Complete that runs the command ((*Executor).executeTarget)
 	RunCommand   *ssa.Function // function creating exec.CommandContext (runTargetCommand)
 	ExecCommand  *ssa.Function // package-level executeTarget: applies timeout, maps errors
@@ -112,12 +112,6 @@ func findExec(c *Check, rule string) *execAnchors {
 	if a.Write == nil {
 		return nil
 	}
-	callers := c.G.CallerFuncs(a.Write)
-	if len(callers) != 1 {
-		c.Unknown(rule, "anchor/result-writer", "anchor-unresolved: expected exactly one caller of TargetResultCache.Write, found "+names(c, callers), "-")
-		return nil
-	}
-	a.Complete = callers[0]
 	// the command runner: the function in internal/execution that calls exec.CommandContext
 	for _, s := range c.G.CallsTo("os/exec.CommandContext", "os/exec.Command") {
 		if engine.InPackage(s.Parent(), "execution") {
@@ -141,14 +135,49 @@ func findExec(c *Check, rule string) *execAnchors {
 		c.Unknown(rule, "anchor/command-callers", "anchor-unresolved: could not identify the timeout-applying command executor and the output-check runner among callers of the command runner", "-")
 		return nil
 	}
-	// ExecMethod: caller of Complete that also calls ExecCommand
-	for _, fn := range c.G.CallerFuncs(a.Complete) {
-		if callsFn(c, fn, a.ExecCommand) {
-			a.ExecMethod = fn
+	// ExecMethod: the lowest function of internal/execution that leads both to the command executor and
+	// to the result write (no callee of it does both); Complete: the function it calls to get to the write
+	// (the completion may itself be split into helpers).
+	reachW := func(f *ssa.Function) map[*ssa.Function]bool { return c.G.ReachableFuncs([]*ssa.Function{f}, nil) }
+	both := map[*ssa.Function]bool{}
+	for _, fn := range c.P.Funcs {
+		if !engine.InPackage(fn, "execution") {
+			continue
+		}
+		r := reachW(fn)
+		if fn != a.ExecCommand && fn != a.Write && r[a.ExecCommand] && r[a.Write] {
+			both[fn] = true
 		}
 	}
-	if a.ExecMethod == nil {
-		c.Unknown(rule, "anchor/execute-method", "anchor-unresolved: no function both runs the command and completes the target", "-")
+	var lowest []*ssa.Function
+	for fn := range both {
+		isLowest := true
+		for g := range reachW(fn) {
+			if g != fn && both[g] {
+				isLowest = false
+			}
+		}
+		if isLowest {
+			lowest = append(lowest, fn)
+		}
+	}
+	if len(lowest) != 1 {
+		c.Unknown(rule, "anchor/execute-method", "anchor-unresolved: expected exactly one lowest function that both runs the command and reaches the result write, found "+names(c, lowest), "-")
+		return nil
+	}
+	a.ExecMethod = lowest[0]
+	for _, s := range sitesReaching(c, a.ExecMethod, fnSet(a.Write)) {
+		for _, cal := range c.G.CalleesOf(s) {
+			if cal != a.Write && (a.Complete == nil || a.Complete == cal) {
+				a.Complete = cal
+			} else if cal != a.Write {
+				c.Unknown(rule, "anchor/completion", "anchor-unresolved: the executing method reaches the result write through several functions", "-")
+				return nil
+			}
+		}
+	}
+	if a.Complete == nil {
+		c.Unknown(rule, "anchor/completion", "anchor-unresolved: the executing method writes the result itself (no completion function)", "-")
 		return nil
 	}
 	return a
